@@ -119,6 +119,8 @@ def cloud(rng, kind, d, n):
         p = blob(0.5, 0.1, n)
         p[:, 0] = np.abs(rng.normal(0.0, 0.02, n))
         p[: n // 2, 1 % d] = 1 - np.abs(rng.normal(0.0, 0.02, n // 2))
+        p[::7, 0] = 0.0                      # points exactly on the closed face of the half-open cube
+        p[3::11, (d - 1)] = 0.0
         return np.clip(p, 0.0, 0.999999)
     if kind == 'ridge_peak':  # a ridge spanning all of x0 and a tight peak at the face x0 = 0: pieces with different
         a = blob(0.5, 0.1, n // 2)           # cube / ellipsoid dimension patterns, one of them poking out of the cube
@@ -156,6 +158,10 @@ def build(case):
                           bound_class=Ellipsoid if case['member'] == 'E' else UnitCubeEllipsoidMixture, rng=brng)
         for _ in range(case.get('splits', 0)):
             b.split()
+        if case.get('trim_after_sample'):     # a partly consumed proposal buffer, then a member is dropped
+            b.sample(137)
+            case['trimmed'] = bool(b.trim(threshold=1.0001))
+            built_from = np.vstack(b.points_bounds)
     elif cls == 'Neural':
         thr = np.sort(log_l)[len(log_l) // 2]
         b = NeuralBound.compute(pts, log_l, thr, enlarge_per_dim=enl, n_networks=case['nets'], neural_network_kwargs=NN, rng=brng)
@@ -262,6 +268,8 @@ def cases(tier, seed):
             for cl, splits in (('two', 1), ('curved', 3), ('ridge_peak', 1), ('ridge_peak', 2), ('face', 2), ('blob', 0)):
                 add(cls='Union', d=d, member=member, cloud=cl, splits=splits, n=160, unit=True)
             add(cls='Union', d=d, member=member, cloud='two', splits=2, n=160, unit=False)
+            for cl in ('two', 'curved', 'ridge_peak'):
+                add(cls='Union', d=d, member=member, cloud=cl, splits=3, n=200, unit=True, trim_after_sample=True)
     for nets in (0, 1, 2):
         add(cls='Neural', d=2 + nets, nets=nets, cloud='blob')
         for periodic, cl in ((None, 'two'), ([0], 'wrapped'), (None, 'ridge_peak'), ([0, 1], 'wrapped'), (None, 'face')):
